@@ -51,6 +51,7 @@ type loopCtx struct {
 	iter    *Term // symbolic count of completed iterations
 	variant *Term // value of the decreases expression at the loop head (nil if none)
 	ord     int
+	count   int
 }
 
 type Frame struct {
